@@ -595,7 +595,7 @@ pub fn run(ctx: Ctx) -> ! {
     }
 
     // Family 1: every zone = base + at most K menu records.
-    let k = ctx.pick(3, 5);
+    let k = ctx.pick(4, 5);
     let menu = universe::c05_menu();
     let subsets = subsets_upto(menu.len(), k);
     let apex = wname(universe::C05_APEX);
@@ -651,7 +651,7 @@ pub fn run(ctx: Ctx) -> ! {
     ctx.assume("responses are small (no truncation; C04 covers size limits)");
     ctx.finish(
         "exploration",
-        "family 1: apex t. with SOA(TTL 3, MINIMUM 5)+NS plus every subset of <= K (3 quick / 5 thorough) records of a 49-record menu (10 owners incl. wildcards, nested names, ENTs; A AAAA TXT NS CNAME MX SRV with in-zone, below-cut, out-of-zone, mixed-case, nonexistent targets), zones outside the statement dropped, x every QNAME of the zone's closure (existing names, RDATA targets, q/*/q.q below each, upper-case spellings) x 10 QTYPEs (A AAAA NS CNAME MX TXT SOA SRV ANY TYPE65280) + names outside the catalog; family 2: structured catalogs (CNAME chains of 1..10 links x 13 endings x entered directly / through a wildcard; loops of length 1..4 after 0..8 links; SOA TTL x MINIMUM grid incl. >= 2^31; classes IN CH HS 65280; nested/sibling/root zones) x 6 well-formed request shapes (UDP, TCP, EDNS, extra records in answer/authority/additional); each through Server::handle_message, response decoded by the independent codec and RCODE, AA, answer, authority (exact multisets, names case-insensitive) and additional (required/optional sets) compared with the reference resolver refdns.rs",
+        "family 1: apex t. with SOA(TTL 3, MINIMUM 5)+NS plus every subset of <= K (4 quick / 5 thorough) records of a 49-record menu (10 owners incl. wildcards, nested names, ENTs; A AAAA TXT NS CNAME MX SRV with in-zone, below-cut, out-of-zone, mixed-case, nonexistent targets), zones outside the statement dropped, x every QNAME of the zone's closure (existing names, RDATA targets, q/*/q.q below each, upper-case spellings) x 10 QTYPEs (A AAAA NS CNAME MX TXT SOA SRV ANY TYPE65280) + names outside the catalog; family 2: structured catalogs (CNAME chains of 1..10 links x 13 endings x entered directly / through a wildcard; loops of length 1..4 after 0..8 links; SOA TTL x MINIMUM grid incl. >= 2^31; classes IN CH HS 65280; nested/sibling/root zones) x 6 well-formed request shapes (UDP, TCP, EDNS, extra records in answer/authority/additional); each through Server::handle_message, response decoded by the independent codec and RCODE, AA, answer, authority (exact multisets, names case-insensitive) and additional (required/optional sets) compared with the reference resolver refdns.rs",
         true,
     );
 }
